@@ -21,7 +21,8 @@ RULE = (
     "(removal of submitter.lock), a not-submitted job all of whose blockers have rows in processed_results.csv "
     "implies that the number of active batch ids the round persisted equals max_nodes; (c) is_complete flips "
     "false->true exactly once, at that instant results.json exists and lists every job and completed_jobs == "
-    "num_jobs, and no sbatch follows (also not from commands issued afterwards); non-trivial = >= 1 recovery "
+    "num_jobs, results.json is written once, no process tries to complete an already complete submission, no lock "
+    "marker is left behind, and no sbatch follows (also not from commands issued afterwards); non-trivial = >= 1 recovery "
     "round or >= 3 submitter rounds; distinct by hash of the case"
 )
 ASSUMPTIONS = C.WORLD_ASSUMPTIONS + [
@@ -60,6 +61,7 @@ def run_case(case):
                 rounds.append({"i": rec["i"], "by": rec["by"], "js": js, "processed": done})
 
         w.observers.append(observer)
+        w.fs_watch.add("results.json")
         have_cluster = lambda ww: os.path.exists(os.path.join(sim.out, "submitter_groups.json"))  # noqa: E731  (Cluster.create returned)
         for k in case["user"]:
             w.user_events.append((k, have_cluster, (lambda kk: lambda ww: sim.user_cmd(_cmd(sim, kk)))(k)))
@@ -167,6 +169,20 @@ def run_case(case):
             late = [r for r in w.events("sbatch") if r["i"] > s["i"]]
             if late:
                 v.append(C.viol("C05:sbatch-after-completion", f"batches {[r['batch'] for r in late]} submitted after completion"))
+
+        # completion happens once: the summary is written once, nobody tries to complete a complete submission, and a
+        # fault-free run does not end with the deliberate deadlock marker
+        writes = [r for r in w.events("fs") if r["file"] == "results.json" and r["op"].startswith("open")]
+        if len(writes) > 1:
+            v.append(C.viol("C05:completed-twice|results-summary-rewritten", f"results.json was written {len(writes)} times, by "
+                            f"{[r['by'] for r in writes]}"))
+        for e in sim.exceptions():
+            if e.get("frame") == "cluster.py:_mark_complete":
+                v.append(C.viol("C05:completed-twice|mark-complete-on-complete-submission", f"{e['proc']} tried to mark an already "
+                                f"complete submission complete: {e['type']}"))
+        if outcome == "complete" and not w.live_threads() and os.path.exists(os.path.join(sim.out, "cluster_config.json.lock")):
+            v.append(C.viol("C05:fault-free-run-left-deadlock-marker", f"the submission is complete but cluster_config.json.lock was "
+                            f"left behind; exceptions: {sim.exceptions()[-2:]}"))
 
         # commands after completion must not submit anything
         if outcome == "complete" and not v:
